@@ -11,7 +11,7 @@ git apply $M/patch.diff || { echo "RESULT $M patch does not apply"; exit 2; }
 mkdir -p ciphercore-base/tests; cp $DEMO ciphercore-base/tests/seeded_demo.rs
 cargo test -p ciphercore-base --test seeded_demo --offline > $M/confirm_demo_with.log 2>&1; D1=$?
 rm -f ciphercore-base/tests/seeded_demo.rs
-cargo test --workspace --no-fail-fast --offline > $M/confirm_suite_with.log 2>&1
+cargo test --workspace --lib --no-fail-fast --offline > $M/confirm_suite_with.log 2>&1
 python3 /verif/baseline_check.py $M/confirm_suite_with.log > $M/confirm_suite_with.sum 2>&1; S=$?
 git checkout -q -- .
 mkdir -p ciphercore-base/tests; cp $DEMO ciphercore-base/tests/seeded_demo.rs
